@@ -47,6 +47,9 @@ def _hand_meta(g, sol):
         n_accessible_cells=int(len(comp)),
         fully_connected=bool(len(comp) == g["r"] * g["c"]),
         visited_cells={tuple(u) for u in comp},
+        # the documented value kinds: a single coordinate (above), a set of coordinates (above), an array / list of coordinates (below)
+        endpoints=np.array([sol[0], sol[-1]]),
+        first_cells=[list(q) for q in sol[:3]],
     )
 
 
